@@ -237,3 +237,10 @@ package fiber
 // therefore exempt from Reset/release)
 // ---------------------------------------------------------------------------------------------
 // (defaultString is contracted in zz_contracts_c07_verif.go: value-or-default.)
+
+// SendFile keeps one fasthttp.FS handler (and the Cache-Control value computed for it) per distinct SendFile
+// configuration, shared between requests on purpose; a stored handler may only be reused for a request whose
+// configuration is the same in every field, otherwise one request's configuration shapes another's response.
+//@ func (*sendFileStore).compareConfig
+//@   pure
+//@   ensures same-in-every-field: result <==> (sf.config.FS == cfg.FS && sf.config.Compress == cfg.Compress && sf.config.ByteRange == cfg.ByteRange && sf.config.Download == cfg.Download && sf.config.CacheDuration == cfg.CacheDuration && sf.config.MaxAge == cfg.MaxAge)
